@@ -65,7 +65,7 @@ fn gen(args: &Args, emit: &mut dyn FnMut(Value)) {
             let k = rng.range(1, 3);
             (0..k).map(|i| gen_text_filter(&mut rng, i, true)).collect()
         } else {
-            gen_filters(&mut rng, true, true)
+            gen_filters_n(&mut rng, true, true, 4)
         };
         let headers = gen_headers(&mut rng);
         let scheds = gen_scheds(&mut rng, body.len(), true, 4);
